@@ -260,20 +260,30 @@ func registerFrames() {
 			res    vmResult
 			treeHx string
 		}
-		var reqs []string
+		var reqs, mreqs []string
 		var all [][]flav
 		for _, t := range trees {
 			var fl []flav
 			src := programSource(t)
 			fl = append(fl, flav{"program", src, runProgramTree(src), hx(encTree(t, true))})
 			reqs = append(reqs, "gospecf\t"+fl[0].treeHx)
+			mreqs = append(mreqs, "frames\t"+fl[0].treeHx)
 			tt := templateTree(t)
 			tsrc := templateSource(tt)
 			fl = append(fl, flav{"template", tsrc, runTemplateTree(tsrc), hx(encTree(tt, true))})
 			reqs = append(reqs, "gospecf\t"+fl[1].treeHx)
+			mreqs = append(mreqs, "frames\t"+fl[1].treeHx)
 			all = append(all, fl)
 		}
 		want, err := modelDriver(reqs)
+		if err != nil {
+			c.Fail("model-driver-failed", map[string]string{"error": err.Error()})
+			return
+		}
+		// what the model of today's frame machine does on the same trees: a
+		// deviation from Go counts under a known finding only if it is exactly
+		// the recorded one, i.e. the VM still equals the model
+		model, err := modelDriver(mreqs)
 		if err != nil {
 			c.Fail("model-driver-failed", map[string]string{"error": err.Error()})
 			return
@@ -296,8 +306,8 @@ func registerFrames() {
 				}
 				got := "ok:" + hx(f.res.enc)
 				if got != want[2*i+j] {
-					c.Fail(classify(t, flags[2*i+j]), map[string]string{"tree": hx(encTree(t, false)), "flavour": f.name, "source": f.src,
-						"vm": got, "go_spec": want[2*i+j], "host_panic": f.res.hostMsg})
+					c.Fail(classify(t, flags[2*i+j], got == model[2*i+j]), map[string]string{"tree": hx(encTree(t, false)), "flavour": f.name, "source": f.src,
+						"vm": got, "go_spec": want[2*i+j], "model_of_todays_vm": model[2*i+j], "host_panic": f.res.hostMsg})
 					continue
 				}
 				for _, p := range f.res.paths {
@@ -353,7 +363,7 @@ func registerFrames() {
 			}
 			vm := all[sampleIdx[k]][0].res
 			if vm.buildErr == "" && "ok:"+hx(vm.noLines) != gc {
-				c.Fail(classify(t, flags[2*sampleIdx[k]]), map[string]string{"tree": hx(encTree(t, false)), "flavour": "program", "source": all[sampleIdx[k]][0].src,
+				c.Fail(classify(t, flags[2*sampleIdx[k]], "ok:"+hx(vm.enc) == model[2*sampleIdx[k]]), map[string]string{"tree": hx(encTree(t, false)), "flavour": "program", "source": all[sampleIdx[k]][0].src,
 					"vm": "ok:" + hx(vm.noLines), "gc": gc, "host_panic": vm.hostMsg})
 			}
 		}
@@ -383,15 +393,18 @@ func outcomeCode(enc []byte) int {
 // classify names the failure signature of a tree on which the VM disagrees
 // with Go. flags are the finding triggers met by the Go run of the tree
 // (FramesM.go_flags): a deferred call panicked after a recovery in the same
-// activation; a recovery happened while an aborted panic was listed.
-func classify(t []*Ins, flags [2]bool) string {
-	switch {
-	case hasDeferredNativePanic(t):
-		return "native-defer-panic-host-panic"
-	case flags[1]:
-		return "nested-recover-drops-active-panic"
-	case flags[0]:
-		return "recovered-panic-stays-in-chain"
+// activation; a recovery happened while an aborted panic was listed. A known
+// signature is given only when the VM does what the model of today's machine does.
+func classify(t []*Ins, flags [2]bool, equalsModel bool) string {
+	if equalsModel {
+		switch {
+		case hasDeferredNativePanic(t):
+			return "native-defer-panic-host-panic"
+		case flags[1]:
+			return "nested-recover-drops-active-panic"
+		case flags[0]:
+			return "recovered-panic-stays-in-chain"
+		}
 	}
 	return "trace-or-outcome-differs-from-go"
 }
